@@ -6,9 +6,13 @@ package main
 // lets the harness observe "the request reached the backing filer" exactly.
 
 import (
+	"io"
 	"net"
 	"net/http"
+	"strings"
 	"sync"
+
+	"github.com/chrislusf/seaweedfs/weed/pb/filer_pb"
 
 	"google.golang.org/grpc"
 	"google.golang.org/grpc/codes"
@@ -37,6 +41,14 @@ func (f *filerStub) take() []string {
 	return o
 }
 
+const knownUpload = "u1"
+const caseTagHeader = "X-Verif-Case"
+
+// isWrite: the operation is a data upload (putToFiler)
+func isWrite(op string) bool {
+	return strings.HasPrefix(op, "http PUT ") || strings.HasPrefix(op, "http POST ")
+}
+
 func newFilerStub() *filerStub {
 	f := &filerStub{}
 	gl, err := net.Listen("tcp", "127.0.0.1:0")
@@ -47,6 +59,14 @@ func newFilerStub() *filerStub {
 	gs := grpc.NewServer(grpc.UnknownServiceHandler(func(srv interface{}, stream grpc.ServerStream) error {
 		m, _ := grpc.MethodFromServerStream(stream)
 		f.record("grpc " + m)
+		// the one thing the stand-in HOLDS: the multipart upload "u1" of every bucket
+		// (PutObjectPartHandler looks it up before it verifies anything)
+		if strings.HasSuffix(m, "/LookupDirectoryEntry") {
+			req := &filer_pb.LookupDirectoryEntryRequest{}
+			if err := stream.RecvMsg(req); err == nil && req.Name == knownUpload && strings.HasSuffix(req.Directory, "/.uploads") {
+				return stream.SendMsg(&filer_pb.LookupDirectoryEntryResponse{Entry: &filer_pb.Entry{Name: req.Name, IsDirectory: true}})
+			}
+		}
 		return status.Error(codes.Unimplemented, "verif filer stub")
 	}))
 	go gs.Serve(gl)
@@ -57,7 +77,8 @@ func newFilerStub() *filerStub {
 	}
 	f.httpAddr = hl.Addr().String()
 	go http.Serve(hl, http.HandlerFunc(func(w http.ResponseWriter, r *http.Request) {
-		f.record("http " + r.Method + " " + r.URL.Path)
+		io.Copy(io.Discard, r.Body)
+		f.record("http " + r.Method + " " + r.URL.Path + " #" + r.Header.Get(caseTagHeader))
 		http.Error(w, "verif filer stub", http.StatusInternalServerError)
 	}))
 	return f
